@@ -161,6 +161,8 @@ def run_match_path(unit, pattern, addr):
                 return 1 if 48 <= v <= 57 else 0
         if k == "CallExpr" and A.callee_name(n) in ("__assert_fail", "assert"):
             return 0
+        if k == "StringLiteral":
+            return A.string_literal(n)       # a literal set of characters handed to strcspn / strchr / strpbrk
         return NotImplemented
 
     def call(nm, vals, n):
@@ -178,9 +180,30 @@ def run_match_path(unit, pattern, addr):
                 ev.env[vals[1][1]] = vals[0] + used
             return int(m_.group(1)) if m_ else 0
         if nm in ("strchr",):
+            if isinstance(vals[0], str):      # strchr("literal", c): is c one of these characters
+                return 1 if (vals[1] and chr(vals[1]) in vals[0]) or not vals[1] else 0
             t = text_from(vals[0])
             i = t.find(chr(vals[1])) if vals[1] else len(t)
             return vals[0] + i if i >= 0 else 0
+        if nm in ("strcspn", "strspn") and isinstance(vals[1], str):
+            t = text_from(vals[0])
+            i = 0
+            while i < len(t) and ((t[i] in vals[1]) == (nm == "strspn")):
+                i += 1
+            return i
+        if nm == "strpbrk" and isinstance(vals[1], str):
+            t = text_from(vals[0])
+            for i, c in enumerate(t):
+                if c in vals[1]:
+                    return vals[0] + i
+            return 0
+        if nm == "strlen":
+            return len(text_from(vals[0]))
+        if nm in ("strncmp", "memcmp") and len(vals) == 3:
+            a = vals[0] if isinstance(vals[0], str) else text_from(vals[0])
+            b = vals[1] if isinstance(vals[1], str) else text_from(vals[1])
+            a, b = a[:vals[2]], b[:vals[2]]
+            return 0 if a == b else (1 if a > b else -1)
         fns_ = [f_ for f_ in unit.functions.get(nm, []) if unit.body(f_) is not None]
         if len(fns_) == 1:
             return ev.call_function(unit, fns_[0], vals)
